@@ -53,6 +53,10 @@ CAT = {
     'G24': ([('w', 12, (0.0, 0.0, 0.0), (0.0, 0.0, 12.0), 0.25)], True),
     # a grounded end whose height is a rounding residue below zero (0.3 - 0.1 - 0.2 = -2.8e-17): within the tolerance, hence grounded
     'G23': ([('w', 4, (0.0, 0.0, 0.3 - 0.1 - 0.2), (0.4, 0.2, 2.0), 0.002)], True),
+    # closed loops made of exactly two objects: a half circle closed by a wire (either order, either wire direction), two half circles
+    'G25': ([('a', 4, 1.0, 0.0, 180.0, 0.002), ('w', 3, (-1.0, 0.0, 0.0), (1.0, 0.0, 0.0), 0.002)], False),
+    'G26': ([('w', 3, (1.0, 0.0, 0.0), (-1.0, 0.0, 0.0), 0.002), ('a', 4, 1.0, 0.0, 180.0, 0.002)], False),
+    'G27': ([('a', 4, 1.0, 0.0, 180.0, 0.002), ('a', 4, 1.0, 180.0, 360.0, 0.002)], False),
     'G16': ([('w', 4, (0.2, 0.1, 2.0), (0.0, 0.0, 0.0), 0.002),
              ('w', 2, (0.2, 0.1, 2.0), (1.1, 0.4, 2.1), 0.003)], True),
 }
